@@ -190,14 +190,18 @@ var vecOps = []*VecOp{
 		Call: func(r ad.Scalar, rt *TypeDesc, a, b ad.ConstVector, m ad.ConstMatrix, al float64) {
 			r.LogSmoothMax(a, ad.ConstFloat64(al), [3]ad.Scalar{rt.newRecv(), rt.newRecv(), rt.newRecv()})
 		},
-		// "differentiable maximum on log scale": the same function as SmoothMax, for positive data
+		// "differentiable maximum on log scale": the same function as SmoothMax, for non-negative
+		// data. An entry that is exactly zero is inside the domain: log 0 = -Inf, the entry adds
+		// nothing to sum x_i e^(alpha x_i) and e^0 = 1 to the normaliser sum e^(alpha x_i).
 		Ref: func(a, b []float64, rows, cols int, al float64) (float64, float64, float64, []float64, bool) {
 			ml := 0.0
 			for _, x := range a {
-				if !(x > 0) {
+				if !(x >= 0) {
 					return 0, 0, 0, nil, false
 				}
-				ml = math.Max(ml, math.Abs(math.Log(x)))
+				if x > 0 {
+					ml = math.Max(ml, math.Abs(math.Log(x)))
+				}
 			}
 			ref, scale, cond, inter, ok := refSmoothMax(a, b, rows, cols, al)
 			return ref, scale, 4 * (cond + ml), inter, ok
@@ -394,6 +398,14 @@ func runOneVec(c *vf.Ctx, u *unitAgg, op *VecOp, rt *TypeDesc, kinds []*VecKind,
 	c.Nontrivial(1)
 	val := vecValClass(data)
 	u.checked(opnd, val)
+	for _, d := range data {
+		for _, zc := range zeroClasses(d) {
+			if u.zeroSeen == nil {
+				u.zeroSeen = map[string]int64{}
+			}
+			u.zeroSeen[zc]++
+		}
+	}
 	what, msg := judge(e, o)
 	if what != "" {
 		u.fail(what, opnd, val, "", rank, cs, msg)
@@ -417,11 +429,127 @@ func vectorsOver(al []*V, n int) [][]*V {
 	return out
 }
 
+// zeroPatterns: every way a vector of length n can contain exact zeros: each non-empty set of
+// positions (leading, trailing, interleaved, all) holds the zero z, the other positions hold
+// fill[i] (distinct non-zero values).
+func zeroPatterns(n int, z *V, fill []*V) [][]*V {
+	var out [][]*V
+	for mask := 1; mask < 1<<uint(n); mask++ {
+		v := make([]*V, n)
+		for i := range v {
+			if mask&(1<<uint(i)) != 0 {
+				v[i] = z
+			} else {
+				v[i] = fill[i]
+			}
+		}
+		out = append(out, v)
+	}
+	return out
+}
+
+// zeroClasses: where the exact zeros of a vector sit.
+func zeroClasses(v []*V) []string {
+	nz := 0
+	for _, e := range v {
+		if e.F == 0 {
+			nz++
+		}
+	}
+	switch {
+	case nz == 0:
+		return nil
+	case nz == len(v):
+		return []string{"all-zero"}
+	}
+	var cl []string
+	if v[0].F == 0 {
+		cl = append(cl, "leading")
+	}
+	if v[len(v)-1].F == 0 {
+		cl = append(cl, "trailing")
+	}
+	for i := 1; i < len(v)-1; i++ {
+		if v[i].F == 0 {
+			l, r := false, false
+			for k := 0; k < i; k++ {
+				l = l || v[k].F != 0
+			}
+			for k := i + 1; k < len(v); k++ {
+				r = r || v[k].F != 0
+			}
+			if l && r {
+				cl = append(cl, "interleaved")
+				break
+			}
+		}
+	}
+	return cl
+}
+
+var zeroClassNames = []string{"all-zero", "leading", "trailing", "interleaved"}
+
 func vecData(op *VecOp, thorough bool) (data [][][]*V, shapes [][2]int) {
+	seen := map[string]bool{}
 	add := func(d [][]*V, r, cl int) {
+		k := fmt.Sprint(namesOf(d), r, cl)
+		if seen[k] {
+			return // the families below overlap; every case is enumerated once
+		}
+		seen[k] = true
 		data = append(data, d)
 		shapes = append(shapes, [2]int{r, cl})
 	}
+	// every zero pattern of the operand data (see zeroPatterns), with +0 and -0, around positive
+	// and around mixed-sign entries
+	negZero := valueByName["-0.0"]
+	zeros := []*V{valueByName["0"], negZero}
+	fills := [][]*V{
+		{valueByName["1"], valueByName["2"], valueByName["0.5"], valueByName["3"]},
+		{valueByName["-1"], valueByName["2"], valueByName["-0.5"], valueByName["3"]},
+		{valueByName["1"], valueByName["2"], valueByName["3"], valueByName["7"]}, // integer storage types as well
+	}
+	defer func() {
+		switch {
+		case op.Matrix:
+			for _, z := range zeros {
+				for _, f := range fills {
+					for _, v := range zeroPatterns(4, z, f) {
+						add([][]*V{v}, 2, 2)
+					}
+					for _, v := range zeroPatterns(2, z, f) {
+						if op.Name != "Mtrace" {
+							add([][]*V{v}, 1, 2)
+							add([][]*V{v}, 2, 1)
+						}
+					}
+				}
+			}
+		case op.NVec == 2:
+			for n := 1; n <= 3; n++ {
+				for _, z := range zeros {
+					for _, f := range fills {
+						pa := append(zeroPatterns(n, z, f), f[:n])
+						for _, a := range pa {
+							for _, b := range pa {
+								add([][]*V{a, b}, 0, 0)
+							}
+						}
+					}
+				}
+			}
+		default:
+			for n := 1; n <= 4; n++ {
+				for _, z := range zeros {
+					for _, f := range fills {
+						for _, v := range zeroPatterns(n, z, f) {
+							add([][]*V{v}, 0, 0)
+						}
+					}
+				}
+			}
+		}
+	}()
 	S, S5 := latticeS, latticeS5
 	withSpec := append(append([]*V{}, S5...), latticeSpec...)
 	switch {
@@ -537,6 +665,17 @@ func runVecUnit(c *vf.Ctx, un vecUnit) {
 					}
 					runOneVec(c, u, op, rt, []*VecKind{ka, kb}, d, 0, 0, al, int64(di)*1000+int64(ia*20+ib))
 				}
+			}
+		}
+	}
+	// the zeros of the operand data are inside the domain of every reduction: each receiver type
+	// that takes part at all must have been compared on every zero pattern
+	if rt.K.Float || !op.NoInt {
+		for _, zc := range zeroClassNames {
+			n := u.zeroSeen[zc]
+			c.Count("vec_cases_zero_pattern:"+zc, n)
+			if n == 0 {
+				c.HarnessError(fmt.Sprintf("%s on receiver %s was never compared on an operand with the zero pattern %q", op.Name, rt.Name, zc))
 			}
 		}
 	}
